@@ -90,6 +90,35 @@ def shard(i, n, args):
     t0 = time.time()
     mm, py = ctx.load()
     env = envelopes(mm)
+    # run history inside this process: a different (evolved) model is generated first - its vectors are
+    # judged against ITS metamodel - then the model under test; nothing may carry over
+    pre = {"judged": 0}
+    if ctx.focus() is None and not os.environ.get("VERIF_MM"):
+        from . import c16
+
+        docB = c16.trimmed(c16.model_B(mm.doc))
+        tmpd = common.scratch_dir("vf-c17b-")
+        try:
+            pB = os.path.join(tmpd, "b.json")
+            json.dump(docB, open(pB, "w"))
+            vB = capture_vectors(pB)
+        finally:
+            import shutil
+
+            shutil.rmtree(tmpd, ignore_errors=True)
+        mmB = MM(docB)
+        envB = envelopes(mmB)
+        for fname, content in vB:
+            m = NAME_RE.match(fname)
+            if not m or m.group(1) not in envB:
+                continue
+            if hash(fname) % n != i:
+                continue
+            pre["judged"] += 1
+            v = mmB.valid(json.loads(content), envB[m.group(1)][2], strict=True)
+            if v is not (m.group(2) == "True"):
+                e = res_pre_fail = ("evolved model: label %s but content is %s|%s" % (m.group(2), "valid" if v else "invalid", envB[m.group(1)][0]), {"name": fname, "content": json.loads(content)})
+                pre.setdefault("fails", []).append(e)
     vectors = capture_vectors(ctx.mm_path())
     tgen = time.time() - t0
     res = {"vectors_total": len(vectors), "judged": 0, "true": 0, "false": 0, "failures": {}, "classes": {}, "samples": [], "gen_s": round(tgen, 1), "accepted_true": 0, "bad_names": 0}
@@ -99,6 +128,9 @@ def shard(i, n, args):
         e = fails.setdefault(key, {"count": 0, "witness": wit})
         e["count"] += 1
 
+    for k, w in pre.get("fails", []):
+        fail(k, w)
+    res["evolved_model_vectors_judged"] = pre["judged"]
     names = sorted(env)
     mine = {c for x, c in enumerate(names) if x % n == i}
     frac = 1.0
@@ -183,6 +215,7 @@ def main(tier):
         "false_vectors": sum(r["false"] for r in results),
         "true_vectors_accepted_by_converter": sum(r["accepted_true"] for r in results),
         "message_classes": len(classes),
+        "evolved_model_vectors_judged_first_in_same_process": sum(r.get("evolved_model_vectors_judged", 0) for r in results),
         "generation_seconds_per_process": [r["gen_s"] for r in results][:4],
         "exhaustive": True,
         "samples": samples[:3] or [{}],
